@@ -59,7 +59,8 @@ pub enum Res {
     Exists(i64),
     Inserted,
     /// compute: (value shown to the callback, value returned)
-    Computed(Option<i64>, Option<i64>),
+    /// compute_if_present: value shown to the function, value returned, step at which the function ran (0 = never)
+    Computed(Option<i64>, Option<i64>, u64),
     /// retain: per predicate call (step, key, value shown, verdict)
     Retained(Vec<(u64, u32, i64, bool)>),
     /// iter: creation step, then (step, key, value) per yielded item
@@ -263,8 +264,10 @@ fn run_op<S: BuildHasher>(
         COp::Compute(k, f) => {
             let mut calls = 0u32;
             let mut seen = None;
+            let mut ran_at = 0u64;
             let fun = |kk: &Key, v: &Val| {
                 calls += 1;
+                ran_at = now(s);
                 seen = Some(v.payload);
                 if !v.alive() || !kk.alive() {
                     fails.lock().unwrap().push("C03: compute_if_present callback was shown a dead key/value".into());
@@ -276,7 +279,7 @@ fn run_op<S: BuildHasher>(
             if calls > 1 {
                 fails.lock().unwrap().push(format!("C08: remapping function invoked {} times in one call", calls));
             }
-            Res::Computed(seen, ret)
+            Res::Computed(seen, ret, ran_at)
         }
         COp::Retain(pi) | COp::RetainForce(pi) => {
             let mut log = Vec::new();
@@ -796,8 +799,10 @@ fn per_key_calls(p: &Program, r: &RunResult) -> (BTreeMap<u32, Vec<KCall>>, Vec<
                 push(*k, KCall { inv: c.inv, res: c.res, op: KOp::Remove(Some(*o)), desc: d })
             }
             (COp::RemoveEntry(k), Res::None) => push(*k, KCall { inv: c.inv, res: c.res, op: KOp::Remove(None), desc: d }),
-            (COp::Compute(k, f), Res::Computed(seen, ret)) => {
-                push(*k, KCall { inv: c.inv, res: c.res, op: KOp::Compute(*f, *k, *seen, *ret), desc: d })
+            (COp::Compute(k, f), Res::Computed(seen, ret, ran_at)) => {
+                // the function receives the value that is current at the instant the update takes
+                // effect: that instant is not before the function ran
+                push(*k, KCall { inv: c.inv.max(*ran_at), res: c.res, op: KOp::Compute(*f, *k, *seen, *ret), desc: d })
             }
             (COp::Retain(_), Res::Retained(log)) | (COp::RetainForce(_), Res::Retained(log)) | (COp::RetainTouch(..), Res::Retained(log)) => {
                 let force = matches!(c.op, COp::RetainForce(_) | COp::RetainTouch(_, _, true));
@@ -998,7 +1003,7 @@ pub fn check_iterators(p: &Program, r: &RunResult) -> Vec<String> {
             (COp::Insert(k, v), _) => writes.entry(*k).or_default().push((c.inv, c.res, Some(*v))),
             (COp::TryInsert(k, v), Res::Inserted) => writes.entry(*k).or_default().push((c.inv, c.res, Some(*v))),
             (COp::Remove(k), Res::Val(_)) | (COp::RemoveEntry(k), Res::KV(..)) => writes.entry(*k).or_default().push((c.inv, c.res, None)),
-            (COp::Compute(k, _), Res::Computed(Some(_), ret)) => writes.entry(*k).or_default().push((c.inv, c.res, *ret)),
+            (COp::Compute(k, _), Res::Computed(Some(_), ret, _)) => writes.entry(*k).or_default().push((c.inv, c.res, *ret)),
             (COp::Retain(_), Res::Retained(log)) | (COp::RetainForce(_), Res::Retained(log)) | (COp::RetainTouch(..), Res::Retained(log)) => {
                 for (_, k, _, verdict) in log {
                     if !*verdict {
@@ -1170,7 +1175,22 @@ pub fn gen_program(rng: &mut SplitMix64, kind: u64) -> Program {
             _ => COp::Get(k),
         }
     };
-    match kind % 16 {
+    match kind % 17 {
+        // compute_if_present against clear, with an observer of the same key (C08): list bins
+        16 => {
+            p.hasher = if rng.chance(1, 2) { H_ZERO } else { H_IDENTITY };
+            p.cap = [0, 16][rng.below(2) as usize];
+            let pre = 1 + rng.below(3) as u32;
+            p.prefill = (0..pre).collect();
+            p.universe = pre + 1;
+            let k = rng.below(pre as u64) as u32;
+            p.threads.push(vec![COp::Compute(k, [0, 1, 1, 3][rng.below(4) as usize])]);
+            p.threads.push(vec![COp::Clear]);
+            p.threads.push(vec![COp::Get(k), COp::Get(k)]);
+            if nthreads > 3 {
+                p.threads.push(vec![COp::Insert(k, { val += 1; val })]);
+            }
+        }
         // concurrent increments of one counter (C08)
         8 => {
             p.universe = 2;
@@ -1327,7 +1347,7 @@ pub fn gen_program(rng: &mut SplitMix64, kind: u64) -> Program {
         }
         // operations racing with a resize: fill to one below the threshold
         2 | 3 => {
-            let n: u32 = if kind % 16 == 2 { 16 } else { 64 };
+            let n: u32 = if kind % 17 == 2 { 16 } else { 64 };
             p.cap = (n / 2) as u64; // with_capacity(n/2) -> table of n bins for n = 16, 64
             p.hasher = if rng.chance(1, 2) { H_IDENTITY } else { H_MIX };
             let fill = n - n / 4 - 1;
